@@ -6,7 +6,7 @@
   every step fills one struct field of its own; the zero values of the fields are what `len()` assumes for a record
   without RDATA.
 -/
-import DnsProofs.C08Msg
+import DnsProofs.C08Plain
 namespace Dns.Instance
 open Dns Dns.MU Dns.Len Dns.C08M Dns.C02M
 
@@ -30,14 +30,14 @@ theorem covered_of_kind (r : RRm) (hk : r.kind ∈ Gen.unpackCodecs.map (·.1)) 
   · exact ⟨h1, h2, hn⟩
 
 /-- **Len ≥ Pack for what `Unpack` accepts**: a message decoded from any octets (its names are then within the limits,
-    `unpackMsg_names`), with something to compress and records of the covered types: the model of `Msg.Len()` with
-    `Compress` predicts at least what the model of `Msg.Pack()` writes -/
+    `unpackMsg_names`) whose records are of the covered types: the model of `Msg.Len()` predicts at least what the model
+    of `Msg.Pack()` writes, with `Compress` set and without -/
 theorem len_ge_pack_decoded (b : Bytes) (m : MsgM) (hm : unpackMsg b = some m)
-    (hk : ∀ r ∈ m.answer ++ m.ns ++ m.extra, r.kind ∈ Gen.unpackCodecs.map (·.1) ∧ r.kind ∉ lenUncovered)
-    (hcomp : ¬ (m.question.length ≤ 1 ∧ m.answer.isEmpty ∧ m.ns.isEmpty ∧ m.extra.isEmpty))
-    (w : Bytes) (hp : packMsgCOf m = some w) (n : Nat) (hl : lenMsg m true = some n) : w.length ≤ n := by
+    (hk : ∀ r ∈ m.answer ++ m.ns ++ m.extra, r.kind ∈ Gen.unpackCodecs.map (·.1) ∧ r.kind ∉ lenUncovered) :
+    (∀ w n, packMsgCOf m = some w → lenMsg m true = some n → w.length ≤ n) ∧
+    (∀ w n, packMsgPlain m = some w → lenMsg m false = some n → w.length ≤ n) := by
   obtain ⟨hq, ha, hn, he⟩ := unpackMsg_names b m hm
-  refine lenMsg_ge_packMsgC m hq ?_ hcomp w hp n hl
+  refine lenMsg_ge_pack m hq ?_
   intro r hr
   have hr' := hr
   simp only [List.mem_append] at hr'
